@@ -38,6 +38,10 @@ run mutants/eq-queue-lock-discipline.patch C05 quiet
 run mutants/eq-queue-lock-discipline.patch C06 quiet
 run mutants/eq-parser-bigger-buffers.patch C11 quiet
 run mutants/eq-parser-bigger-buffers.patch C12 quiet
+# wave 4: independently written CORRECT refactorings (different primitives and control flow)
 for i in 1 2 3; do run mutants/eq-w4R2-$i.patch C06 quiet; done
+for i in 1 2 3; do run mutants/eq-w4R1-$i.patch C04 quiet; run mutants/eq-w4R1-$i.patch C05 quiet; done
+for i in 1 2 3; do run mutants/eq-w4R3-$i.patch C11 quiet; run mutants/eq-w4R3-$i.patch C12 quiet; done
+for i in 1 2 3; do run mutants/eq-w4R4-$i.patch C19 quiet; done
 echo "seeds: pass=$pass fail=$fail"
 [ $fail = 0 ]
